@@ -8,7 +8,16 @@ package statex
 import (
 	"sync"
 	"sync/atomic"
+	"time"
 )
+
+// OnHang, when set, is called (once) if a worker spends more than HangAfter
+// on a single sequence; it receives a copy of that sequence. The in-process
+// workers cannot be killed, so the callback is expected to report the
+// violation and end the process.
+var OnHang func(seq []int)
+var HangAfter = 60 * time.Second
+
 
 // Sequences calls f(worker, seq) for every sequence over [0,k) of length n,
 // sharded over workers by the first min(n,2) letters. f must not retain seq.
@@ -30,12 +39,43 @@ func Sequences(k, n, workers int, stop func() bool, f func(worker int, seq []int
 	var next int64 = -1
 	var total int64
 	complete := int32(1)
+	ticks := make([]int64, workers)
+	cur := make([][]int, workers)
+	done := make(chan struct{})
+	defer close(done)
+	if OnHang != nil {
+		go func() {
+			last := make([]int64, workers)
+			since := make([]time.Time, workers)
+			for i := range since {
+				since[i] = time.Now()
+			}
+			for {
+				select {
+				case <-done:
+					return
+				case <-time.After(2 * time.Second):
+				}
+				for w := range ticks {
+					t := atomic.LoadInt64(&ticks[w])
+					if t != last[w] || t < 0 {
+						last[w], since[w] = t, time.Now()
+					} else if time.Since(since[w]) > HangAfter && cur[w] != nil {
+						OnHang(append([]int(nil), cur[w]...))
+						return
+					}
+				}
+			}
+		}()
+	}
 	var wg sync.WaitGroup
 	for w := 0; w < workers; w++ {
 		wg.Add(1)
 		go func(w int) {
 			defer wg.Done()
+			defer atomic.StoreInt64(&ticks[w], -1)
 			seq := make([]int, n)
+			cur[w] = seq
 			for {
 				s := int(atomic.AddInt64(&next, 1))
 				if s >= nshard {
@@ -55,6 +95,7 @@ func Sequences(k, n, workers int, stop func() bool, f func(worker int, seq []int
 				}
 				var cnt int64
 				for {
+					atomic.AddInt64(&ticks[w], 1)
 					f(w, seq)
 					cnt++
 					// increment the suffix seq[pre:]
